@@ -169,6 +169,15 @@ func (e *Environment) SaveGlobals(to io.Writer, maxValueLen int) (int, error) {
 				n++
 				continue
 			}
+			if f.Name != nil {
+				// h=y: loading h=func y(..){..} defines y as well; fine when y still is that function, but when y was
+				// redefined (or deleted) since, it must not come back: save the function without its name.
+				if cur, isFn := e.store[f.Name.Literal()].(Function); !isFn || cur.Inspect() != f.Inspect() {
+					f.Name, f.Lambda = nil, true // printed like any function value: x=>..
+					SetCacheKey(&f)
+					v = f
+				}
+			}
 			// Anonymous function are like other variables.
 			//   x=func(a,b){a+b}
 			// fallthrough.
